@@ -153,6 +153,19 @@ func classifyCond(info *types.Info, e ast.Expr) condInfo {
 	}
 	switch x := e.(type) {
 	case *ast.BinaryExpr:
+		// a list of collected errors: len(errs) > 0 / != 0 / == 0 stands for "some error was collected"
+		if lc, ok := ast.Unparen(x.X).(*ast.CallExpr); ok && isBuiltinCall(info, lc, "len") && len(lc.Args) == 1 {
+			if o := objOf(info, lc.Args[0]); o != nil && isErrListType(o.Type()) {
+				if n, isC := constInt(info, x.Y); isC {
+					switch {
+					case n == 0 && (x.Op == token.GTR || x.Op == token.NEQ), n == 1 && x.Op == token.GEQ:
+						return condInfo{kind: "nonnil", obj: o}
+					case n == 0 && (x.Op == token.EQL || x.Op == token.LEQ), n == 1 && x.Op == token.LSS:
+						return condInfo{kind: "isnil", obj: o}
+					}
+				}
+			}
+		}
 		if x.Op == token.NEQ || x.Op == token.EQL {
 			var v ast.Expr
 			if isNilIdent(info, x.Y) {
@@ -161,7 +174,7 @@ func classifyCond(info *types.Info, e ast.Expr) condInfo {
 				v = x.Y
 			}
 			if v != nil {
-				if o := errVarOf(info, v); o != nil && isErrorType(o.Type()) {
+				if o := errVarOf(info, v); o != nil && (isErrorType(o.Type()) || isErrListType(o.Type())) {
 					if x.Op == token.NEQ {
 						return condInfo{kind: "nonnil", obj: o}
 					}
@@ -371,6 +384,14 @@ func (f *Flat) errStatesFrom(A int, E types.Object, twins bool) ErrStates {
 				for _, o := range assignedObjs(info, n.Ast) {
 					if o == c && !has(joined, c) {
 						killed = true
+					}
+				}
+				// errs = append(errs, x): the list stays non-empty
+				if killed && isErrListType(c.Type()) {
+					if as, ok := n.Ast.(*ast.AssignStmt); ok && len(as.Lhs) == 1 && len(as.Rhs) == 1 && objOf(info, as.Lhs[0]) == c {
+						if ac, ok := ast.Unparen(as.Rhs[0]).(*ast.CallExpr); ok && isBuiltinCall(info, ac, "append") && len(ac.Args) >= 1 && objOf(info, ac.Args[0]) == c {
+							killed = false
+						}
 					}
 				}
 				if !killed {
@@ -674,4 +695,19 @@ func certainlyNonNilError(info *types.Info, e ast.Expr) bool {
 		return x.Op == token.AND
 	}
 	return false
+}
+
+// isErrListType: []error
+func isErrListType(t types.Type) bool {
+	sl, ok := t.Underlying().(*types.Slice)
+	return ok && isErrorType(sl.Elem())
+}
+
+func isBuiltinCall(info *types.Info, c *ast.CallExpr, name string) bool {
+	id, ok := ast.Unparen(c.Fun).(*ast.Ident)
+	if !ok || id.Name != name {
+		return false
+	}
+	_, isB := info.Uses[id].(*types.Builtin)
+	return isB
 }
